@@ -132,6 +132,25 @@ func compileOnly(src, cfg string) (lib.Outcome, *fhirpath.Expression) {
 	return out, ex
 }
 
+// dedupe removes repeated error classes (the shared library registers some
+// sentinels itself; this command registers the ones its judge reads).
+func dedupe(out lib.Outcome) lib.Outcome {
+	cls, ok := out["cls"].([]string)
+	if !ok {
+		return out
+	}
+	seen := map[string]bool{}
+	uniq := []string{}
+	for _, c := range cls {
+		if !seen[c] {
+			seen[c] = true
+			uniq = append(uniq, c)
+		}
+	}
+	out["cls"] = uniq
+	return out
+}
+
 func main() {
 	if len(os.Args) != 4 || os.Args[1] != "run" {
 		lib.Fatal("usage: c16 run cases.ndjson obs.ndjson")
@@ -214,7 +233,7 @@ func main() {
 				kind, pos = "accept", "nested"
 				src = nested(c.Text)
 			}
-			if err := w.Write(map[string]any{"id": id, "kind": kind, "pos": pos, "j": j, "cs": c, "tbl": tbl, "comp": comp, "out": out, "src": src}); err != nil {
+			if err := w.Write(map[string]any{"id": id, "kind": kind, "pos": pos, "j": j, "cs": c, "tbl": tbl, "comp": dedupe(comp), "out": dedupe(out), "src": src}); err != nil {
 				lib.Fatal("%v", err)
 			}
 		}
